@@ -63,7 +63,10 @@ theorem G.trans {p q r : PP} (h1 : G p q) (h2 : G q r) : G p r :=
   ⟨h2.1, h2.2.1.trans h1.2.1, h2.2.2.trans h1.2.2⟩
 theorem G.pre {p q : PP} (hp : Pre p) (h : G p q) : Pre q := ⟨h.1, by rw [h.2.1]; exact hp.2⟩
 
-def GR (p : PP) (r : Res) : Prop := ∀ q, r = .ok q → G p q
+/-- What is known about a result: on success the frame `G`; when a panic propagates, the buffer it
+carries still satisfies the invariant and the payload is well-formed. -/
+def GR (p : PP) (r : Res) : Prop :=
+  (∀ q, r = .ok q → G p q) ∧ (∀ b pl, r = .panic b pl → Inv b ∧ ValOk pl)
 
 theorem G_w {p : PP} (hp : Pre p) (s : List Byte) : G p (p.w s) :=
   ⟨inv_write_nr _ _ hp.1 hp.2, write_mode _ _, rfl⟩
@@ -77,33 +80,42 @@ theorem G_same {p q : PP} (hp : Pre p) (hb : q.buf = p.buf) (ho : q.override = p
   ⟨by rw [hb]; exact hp.1, by rw [hb], ho⟩
 
 theorem GR_bind {p : PP} {r : Res} {f : PP → Res} (h1 : GR p r) (h2 : ∀ q, G p q → GR q (f q)) : GR p (r.bind f) := by
-  intro q hq
   cases r with
-  | ok q1 => exact G.trans (h1 q1 rfl) (h2 q1 (h1 q1 rfl) q hq)
-  | panic => simp [Res.bind] at hq
-  | fuel => simp [Res.bind] at hq
-  | unsupported => simp [Res.bind] at hq
+  | ok q1 =>
+    have g1 := h1.1 q1 rfl
+    exact ⟨fun q hq => G.trans g1 ((h2 q1 g1).1 q hq), fun b pl hq => (h2 q1 g1).2 b pl hq⟩
+  | panic b pl => exact ⟨fun q hq => (by simp [Res.bind] at hq), fun b' pl' hq => (by
+      simp only [Res.bind, Res.panic.injEq] at hq; obtain ⟨rfl, rfl⟩ := hq; exact h1.2 _ _ rfl)⟩
+  | fuel => exact ⟨fun q hq => (by simp [Res.bind] at hq), fun b pl hq => (by simp [Res.bind] at hq)⟩
+  | unsupported => exact ⟨fun q hq => (by simp [Res.bind] at hq), fun b pl hq => (by simp [Res.bind] at hq)⟩
 
 /-- `defer p.startX().restore()` around a body that keeps the frame. -/
 theorem GR_bracket (start : PP → PP × PP.Restorer) (p : PP) (body : PP → Res) (hp : Pre p)
     (hstart : Pre (start p).1 ∧ (start p).2 = ⟨p.buf.mode, p.override⟩)
     (hbody : GR (start p).1 (body (start p).1)) : GR p (bracket start p body) := by
-  intro q hq
-  unfold bracket at hq
-  generalize hs : start p = sp at hq hstart hbody
+  have _ := hp
+  unfold bracket
+  generalize hs : start p = sp at hstart hbody
   obtain ⟨q0, r⟩ := sp
-  simp only at hq hstart hbody
+  simp only at hstart hbody ⊢
   cases hb : body q0 with
   | ok q1 =>
-    rw [hb] at hq
-    simp only [Res.bind, Res.ok.injEq] at hq
+    rw [hb] at hbody
+    have g := hbody.1 q1 rfl
+    refine ⟨fun q hq => ?_, fun b pl hq => (by cases hq)⟩
+    simp only [Res.ok.injEq] at hq
     subst hq
-    have g := hbody q1 hb
     rw [hstart.2]
     exact ⟨inv_setMode _ _ g.1, setMode_mode _ _, rfl⟩
-  | panic => rw [hb] at hq; simp [Res.bind] at hq
-  | fuel => rw [hb] at hq; simp [Res.bind] at hq
-  | unsupported => rw [hb] at hq; simp [Res.bind] at hq
+  | panic b pl =>
+    rw [hb] at hbody
+    have g := hbody.2 b pl rfl
+    refine ⟨fun q hq => (by cases hq), fun b' pl' hq => ?_⟩
+    simp only [Res.panic.injEq] at hq
+    obtain ⟨rfl, rfl⟩ := hq
+    exact ⟨inv_setMode _ _ g.1, g.2⟩
+  | fuel => exact ⟨fun q hq => (by cases hq), fun b pl hq => (by cases hq)⟩
+  | unsupported => exact ⟨fun q hq => (by cases hq), fun b pl hq => (by cases hq)⟩
 
 theorem start_safeOverride {p : PP} (hp : Pre p) :
     Pre p.startSafeOverride.1 ∧ p.startSafeOverride.2 = ⟨p.buf.mode, p.override⟩ := by
@@ -127,35 +139,37 @@ theorem start_unsafe {p : PP} (hp : Pre p) :
   · exact ⟨hp, rfl⟩
 
 /-- Writing a finished redactable under `startPreRedactable`. -/
+theorem GR_ok {p q : PP} (h : G p q) : GR p (.ok q) :=
+  ⟨fun q' hq => (by cases hq; exact h), fun b pl hq => (by cases hq)⟩
+
 theorem GR_preRedactable (p : PP) (content : List Byte) (hp : Pre p) (hc : Obtainable content) :
     GR p (bracket PP.startPreRedactable p fun q => .ok (q.w content)) := by
-  intro q hq
-  unfold bracket PP.startPreRedactable at hq
+  unfold bracket PP.startPreRedactable
   by_cases ho : p.override ≠ .ovUnsafe
-  · rw [if_pos ho] at hq
-    simp only [Res.bind, Res.ok.injEq] at hq
-    subst hq
+  · rw [if_pos ho]
+    apply GR_ok
     have i1 := inv_setMode p.buf .raw hp.1
     have i2 := inv_write _ content i1 (fun _ => hc)
     exact ⟨inv_setMode _ _ i2, setMode_mode _ _, rfl⟩
-  · rw [if_neg ho] at hq
-    simp only [Res.bind, Res.ok.injEq] at hq
-    subst hq
+  · rw [if_neg ho]
+    apply GR_ok
     have i2 := inv_write_nr _ content hp.1 hp.2
     exact ⟨inv_setMode _ _ i2, setMode_mode _ _, rfl⟩
+
+theorem GR_none (p : PP) {r : Res} (h1 : ∀ q, r ≠ .ok q) (h2 : ∀ b pl, r ≠ .panic b pl) : GR p r :=
+  ⟨fun q hq => absurd hq (h1 q), fun b pl hq => absurd hq (h2 b pl)⟩
 
 theorem GR_leafWrite (env : Env) (p : PP) (id verb : Nat) (k : BK) (ty : List Byte) (hp : Pre p) :
     GR p (leafWrite env p id verb k ty) := by
   unfold leafWrite
   split
-  · intro q hq; simp only [Res.ok.injEq] at hq; subst hq; exact G_w hp _
+  · exact GR_ok (G_w hp _)
   · unfold leafWrite1
     split
-    · intro q hq; cases hq
+    · exact GR_none _ (fun _ h => by cases h) (fun _ _ h => by cases h)
     · split
-      · intro q hq; cases hq
+      · exact GR_none _ (fun _ h => by cases h) (fun _ _ h => by cases h)
       · apply GR_bracket _ _ _ hp (start_unsafe hp)
-        intro q hq; simp only [Res.ok.injEq] at hq; subst hq
-        exact G_w (start_unsafe hp).1 _
+        exact GR_ok (G_w (start_unsafe hp).1 _)
 
 end Redact
